@@ -35,6 +35,12 @@ func DecodeEsds(hdr BoxHeader, startPos uint64, r io.Reader) (Box, error) {
 
 // DecodeEsdsSR - box-specific decode
 func DecodeEsdsSR(hdr BoxHeader, startPos uint64, sr bits.SliceReader) (Box, error) {
+	// Decode from the bytes of this box only, so that a broken descriptor size cannot read into following boxes
+	data := sr.ReadBytes(hdr.payloadLen())
+	if sr.AccError() != nil {
+		return nil, sr.AccError()
+	}
+	sr = bits.NewFixedSliceReader(data)
 	versionAndFlags := sr.ReadUint32()
 	version := byte(versionAndFlags >> 24)
 
